@@ -423,7 +423,7 @@ def finish(pid, tier, seed, merged, rule, assumptions, extra_cov=None, required=
     for v in new_violations[:40]:
         path = write_replay(pid, v)
         sh = v.get("shrunk") or v.get("case") or {}
-        log("violation (%s): %s | pattern=%r flags=%r haystack=%r start=%r | observed: %s | expected: %s" % (v.get("detail_property"), sh.get("what", v.get("what")), sh.get("pattern"), sh.get("flags"), sh.get("haystack"), sh.get("start"), str(sh.get("observed", v.get("observed")))[:300], str(sh.get("expected", v.get("expected")))[:300]))
+        log("violation (%s): %s | pattern=%r flags=%r haystack=%r start=%r | observed: %s | expected: %s" % (v.get("detail_property"), sh.get("what", v.get("what")), sh.get("pattern"), sh.get("flags"), sh.get("haystack") if sh.get("u16") is None else "u16:" + " ".join("%04X" % x for x in sh.get("u16")), sh.get("start"), str(sh.get("observed", v.get("observed")))[:300], str(sh.get("expected", v.get("expected")))[:300]))
         print("VIOLATION property=%s replay=%s" % (pid, path))
         rc = 1
     c = merged.counters
@@ -475,13 +475,30 @@ ASSUME_COMMON = [
 ]
 
 
-def simple_check(pid, vcheck, rule, assumptions, variant="dbg", required=None, extra=None, crash_property="C06", mem_gb=6):
+def simple_check(pid, vcheck, rule, assumptions, variant="dbg", required=None, extra=None, crash_property="C06", mem_gb=6, extra_stages=()):
+    """extra_stages: further (variant, vcheck) runs whose observations are merged into the same verdict
+    (e.g. the UTF-16 entry points, which exist only in the utf16 build)."""
+
     def run(tier, seed, replay=None):
         t0 = time.time()
         build(variant)
+        for v2, _ in extra_stages:
+            build(v2)
         if replay:
+            try:
+                chk = json.load(open(replay)).get("case", {}).get("check")
+            except Exception:
+                chk = None
+            for v2, c2 in extra_stages:
+                if chk == c2:
+                    return do_replay(pid, v2, c2, replay)
             return do_replay(pid, variant, vcheck, replay)
         m = run_shards(variant, vcheck, tier, seed, crash_property=crash_property, timeout=7200 if tier == "thorough" else 1500, mem_gb=mem_gb)
+        for v2, c2 in extra_stages:
+            m2 = run_shards(v2, c2, tier, seed, crash_property=crash_property, timeout=7200 if tier == "thorough" else 1500, mem_gb=mem_gb)
+            for k in list(m2.counters.keys()):
+                m2.counters[c2 + "." + k] = m2.counters[k]
+            m.merge(m2)
         extra_cov = extra(m) if extra else None
         return finish(pid, tier, seed, m, rule, ASSUME_COMMON + assumptions, extra_cov=extra_cov, required=required, t0=t0)
 
@@ -798,10 +815,12 @@ CHECKS = {
         "c05",
         "exhaustive scope: every nesting (depth in maxima.nesting_depth) of 14 quantifier forms around 14 bodies that can match the empty string (with and without capture groups, forward, inside a lookbehind, followed by a literal or a backreference) x every haystack over {a,b} up to length 4 plus two 24-character haystacks; plus the fixed corpus and seeded structured random patterns on their relevant-alphabet haystacks."
         " Each case runs both executors on both the optimized and the unoptimized program with the hook step counter; non-trivial iff the pattern has a quantifier and the reference model's empty-iteration rule fired or it took more than 10 steps.",
-        ["bounded progress, not termination: steps(engine) <= 10^4 + 10^3 x steps(esref), both logical step counts (hook ticks / reference model steps)", "cases whose reference cost exceeds 20000 steps are inconclusive and excluded", "backtrack store bound: high-water <= (3 + groups) x (steps + 1)"],
-        required=["cases_where_the_empty_iteration_rule_fired", "hook.site.pike_step", "hook.pop.SetLoopData", "hook.pop.EnterNonGreedyLoop", "hook.bt.bwd.EnterLoop"],
+        ["bounded progress, not termination: steps(engine) <= 10^4 + 10^3 x steps(esref), both logical step counts (hook ticks / reference model steps)", "cases whose reference cost exceeds 20000 steps are inconclusive and excluded", "backtrack store bound: high-water <= (3 + groups) x (steps + 1)",
+         "second stage (counters c05u16.*): the same bound for find_from_utf16 / find_from_ucs2 (utf16 build) on arbitrary u16 text incl. lone, reversed and trailing surrogates, reference model run on the decoded code points; patterns with property escapes excluded there"],
+        required=["cases_where_the_empty_iteration_rule_fired", "hook.site.pike_step", "hook.pop.SetLoopData", "hook.pop.EnterNonGreedyLoop", "hook.bt.bwd.EnterLoop", "c05u16.cases_with_lone_surrogate", "c05u16.nontrivial_cases_with_lone_surrogate"],
         extra=lambda m: dict(esref_calibration=calibration(), nested_quantifier_patterns=m.c("nested_quantifier_patterns"), cases_where_the_empty_iteration_rule_fired=m.c("cases_where_the_empty_iteration_rule_fired"), exhaustive=True),
         crash_property="C05",
+        extra_stages=[("utf16", "c05u16")],
     ),
     "C07": simple_check(
         "C07",
@@ -827,9 +846,11 @@ CHECKS = {
         "C09",
         "c09",
         RULE_PROGRAMS + "each case is the whole history of next() calls of find_from / the PikeVM iterator / find_from_ascii (plus 3 calls after the first None) from that start, including starts len+1 and usize::MAX; compared with unfold(fresh first match at cursor, advance rule) of the same engine and with the reference model's lastIndex iteration; non-trivial iff at least one match.",
-        ["the per-cursor first match is taken from a fresh iterator of the same engine (isolates cursor logic from C01); the reference-model comparison covers visibility of text before start"],
-        required=["empty_matches_in_histories", "empty_match_before_multibyte_char", "histories_with_adjacent_matches", "histories_checked_against_reference", "histories_with_nonzero_start_and_match", "histories.find_from_ascii", "histories.pikevm", "predicate.StartAnchored"],
-        extra=lambda m: dict(histories=group_counters(m.counters, "histories"), predicate_kinds=group_counters(m.counters, "predicate."), empty_matches=m.c("empty_matches_in_histories"), empty_match_before_multibyte_char=m.c("empty_match_before_multibyte_char")),
+        ["the per-cursor first match is taken from a fresh iterator of the same engine (isolates cursor logic from C01); the reference-model comparison covers visibility of text before start",
+         "second stage (counters c09u16.*): find_from_utf16 / find_from_ucs2 (utf16 build) on arbitrary u16 text incl. lone, reversed and trailing surrogates; 'one character' is one unit, or two for a high surrogate directly followed by a low one (UTF-16 entry point only); the reference model runs on the decoded code points (patterns with property escapes: self-unfolding oracle only); starts inside a surrogate pair are excluded"],
+        required=["empty_matches_in_histories", "empty_match_before_multibyte_char", "histories_with_adjacent_matches", "histories_checked_against_reference", "histories_with_nonzero_start_and_match", "histories.find_from_ascii", "histories.pikevm", "predicate.StartAnchored", "c09u16.histories.find_from_utf16", "c09u16.histories.find_from_ucs2", "c09u16.histories_advancing_past_a_lone_surrogate", "c09u16.nontrivial_cases_with_lone_surrogate"],
+        extra_stages=[("utf16", "c09u16")],
+        extra=lambda m: dict(histories=group_counters(m.counters, "histories"), u16_histories=group_counters(m.counters, "c09u16.histories"), predicate_kinds=group_counters(m.counters, "predicate."), empty_matches=m.c("empty_matches_in_histories"), empty_match_before_multibyte_char=m.c("empty_match_before_multibyte_char")),
     ),
     "C10": simple_check(
         "C10",
